@@ -14,6 +14,14 @@ Three observation points (the property's `observe_at`):
 The oracle is mcv/refs/c13_model.py (no library import): key completeness, membership of independent
 values, each dependent value == its formula on the SAME sample, ConfigError for cyclic / dangling
 configurations, termination (watchdog).
+
+Later additions (gap review): recording SUBCLASSES of DiscreteSet / DependentSampler and literal-only dependents
+(variants 'subclass', 'literal'); zero-valued user constants; several numbered heads whose instances reach the sampler
+through two comparer_params, an answer dictionary (SumGrader / IntegralGrader), a sibling formula or a MatrixGrader
+(numbered_multi); one grader called with different inputs in a row, one of them raising (numbered_history); sibling
+variables in lists with a StringGrader, forward references, separately built and Matrix subgraders (sibling_mixed);
+formulas with functions, suffixes, complex values, vector literals, primed / case-distinct names, default number of
+samples and coerced / default sampling sets (formula_features, oracle mcv/refs/c13_features.py).
 """
 import math
 import itertools
@@ -24,6 +32,7 @@ import numpy as np
 from ..core import Family, Result, viol, Watchdog, HarnessError
 from ..chooser import explore
 from ..refs import c13_model as M
+from ..refs import c13_features as F
 
 EXTRA_HASH_SEEDS = {'thorough': ('1', '2')}      # the order of a dependent variable's dependencies comes from a set
 PROPERTY = 'C13'
@@ -37,6 +46,14 @@ EXPLANATION = ('states = distinct configurations; transitions = executions of th
                'traces_validated_against_impl = number of executions')
 ASSUMPTIONS = ['formulas are integer-coefficient sums of products (plus the constants e, pi where stated); the reference '
                'evaluates them in Python arithmetic and compares with relative guard band 1e-12 (all values < 1e10)',
+               'formula_features: the nine formulas of mcv/refs/c13_features.py are evaluated by hand-written Python '
+               'lambdas (twice(x) = 2x, sqrt(p*p) = |p|, 50% = 0.5, vector*vector = dot product as documented for '
+               'MatrixGrader); continuous sampling sets (RealInterval, default [1,5] per docs/grading_math/'
+               'formula_grader.md) are judged by interval membership under the 5-entry draw menu of mcv.chooser',
+               'IntegralGrader is only observed at gen_var_and_func_samples (scipy is not installed here, integrals '
+               'cannot be evaluated); SumGrader shares the same raw_check and is run end to end',
+               'numbered_multi / numbered_history use 1 sample, so that all calls of the recording functions within '
+               'one grading belong to one sample and must agree on every common name',
                'mcv.chooser owns random.choice: DiscreteSet draws are enumerated, not sampled',
                'the exact wording of the ConfigError and extra keys in a sample dictionary are left open',
                'a DependentSampler that names a numbered instance occurring in no graded expression may either be '
@@ -151,14 +168,67 @@ def dependent(form, depends='infer'):
     return _DEP[f]
 
 
+SAMPLER_LOG = []
+_SUB = {}
+
+
+def sampler_subclasses():
+    """
+    'recording samplers': author-side subclasses of DiscreteSet / DependentSampler (a subclass must be treated like
+    its base class).  RecDependent notes, at every compute_sample call, which names the working dictionary holds.
+    """
+    if not _SUB:
+        from mitxgraders import DiscreteSet, DependentSampler
+
+        class RecDiscrete(DiscreteSet):
+            def gen_sample(self):
+                v = super(RecDiscrete, self).gen_sample()
+                SAMPLER_LOG.append(('draw', self.tag, None))
+                return v
+
+        class RecDependent(DependentSampler):
+            def compute_sample(self, sample_dict, functions, suffixes):
+                SAMPLER_LOG.append(('compute', self.tag, sorted(sample_dict)))
+                return super(RecDependent, self).compute_sample(sample_dict, functions, suffixes)
+
+        _SUB['set'], _SUB['dep'] = RecDiscrete, RecDependent
+    return _SUB['set'], _SUB['dep']
+
+
+def judge_sampler_log(site, spec, samples, log):
+    """
+    a dependent is only computed when all names of its formula have a value in the working dictionary (how often
+    the samplers are asked is left open)
+    """
+    for kind, tag, keys in log:
+        if kind != 'compute':
+            continue
+        absent = [p for p in M.parents(spec['forms'][tag]) if p not in keys]
+        if absent:
+            return viol('%s:dependent-computed-before-its-dependencies' % site,
+                        '%s was computed while %s had no value yet' % (tag, ', '.join(absent)),
+                        M.parents(spec['forms'][tag]), keys)
+    return None
+
+
 def sample_from_of(spec, dict_order=None, wrong_depends=False):
-    """sample_from dictionary with the given insertion order of names (default: sorted names)"""
+    """
+    sample_from dictionary with the given insertion order of names (default: sorted names).
+    wrong_depends: False | True (explicit, wrong depends= lists) | 'subclass' (recording subclasses, fresh objects)
+    """
     names = sorted(list(spec['sets']) + list(spec['forms']))
     if dict_order is not None:
         names = [names[k] for k in dict_order]
     sf = OrderedDict()
     for k, n in enumerate(names):
-        if n in spec['sets']:
+        if wrong_depends == 'subclass':
+            rset, rdep = sampler_subclasses()
+            if n in spec['sets']:
+                sf[n] = rset(tuple(lib_value(v) for v in spec['sets'][n]))
+            else:
+                sf[n] = rdep(formula=M.formula_str(spec['forms'][n]))
+            sf[n].tag = n
+        elif n in spec['sets']:
             sf[n] = discrete(spec['sets'][n])
         elif wrong_depends:
             sf[n] = dependent(spec['forms'][n], depends=[[], ['zz'], [n]][k % 3])
@@ -219,7 +289,7 @@ def product_check(body, judge, nontrivial, ok_label):
         if out[0] == 'err':
             buckets.add(err_bucket(out[1]))
         else:
-            buckets.add(ok_label)
+            buckets.add(ok_label(out) if callable(ok_label) else ok_label)
         v = judge(out)
         if v is not None:
             viols.append(v)
@@ -246,17 +316,21 @@ def run_direct(site, spec, samples, dict_order=None, wrong_depends=False, extra_
 
     def body(ch):
         c = dict(consts)
+        del SAMPLER_LOG[:]
         try:
             out = gen_symbols_samples(list(symbols), samples, dict(sf), {}, {}, c)
         except Exception as e:        # noqa
             return ('err', e)
-        return ('ok', out)
+        return ('ok', out, list(SAMPLER_LOG))
 
     def judge(out):
         if out[0] == 'err':
             return judge_error(site, cls, out[1])
         v = judge_no_error(site, cls, [sorted(d) for d in out[1]] if isinstance(out[1], list) else repr(out[1]))
-        return v or judge_dicts(site, spec, samples, out[1])
+        v = v or judge_dicts(site, spec, samples, out[1])
+        if v is None and wrong_depends == 'subclass':
+            v = judge_sampler_log(site, spec, samples, out[2])
+        return v
 
     nontriv = bool(spec['forms']) or cls != 'ok'
     return product_check(body, judge, nontriv, 'values:%ddep' % len(spec['forms']))
@@ -273,7 +347,7 @@ def make_grader(spec, samples, dict_order, answer, user_functions, numbered=(), 
         sf[n] = discrete(vals)
     kw = dict(answers=answer, variables=list(spec['vars']), sample_from=sf, samples=samples,
               user_functions=user_functions, numbered_vars=list(numbered),
-              user_constants=dict(user_constants or {}))
+              user_constants={n: lib_value(v) for n, v in (user_constants or {}).items()})
     if suppress:
         kw['suppress_warnings'] = True
     return (klass or FormulaGrader)(**kw)
@@ -293,18 +367,19 @@ def run_grader(site, spec, samples, dict_order, rec_names, user_constants=None, 
 
     def body(ch):
         del log[:]
+        del SAMPLER_LOG[:]
         try:
             g = make_grader(spec, samples, dict_order, expr, {'rec': rec}, user_constants=user_constants,
                             suppress=suppress, wrong_depends=wrong_depends, klass=klass)
             res = g(None, expr)
         except Exception as e:      # noqa
             return ('err', e)
-        return ('ok', res, [c[1] for c in log])
+        return ('ok', res, [c[1] for c in log], list(SAMPLER_LOG))
 
     def judge(out):
         if out[0] == 'err':
             return judge_error(site, cls, out[1])
-        _, res, calls = out
+        _, res, calls, slog = out
         v = judge_no_error(site, cls, res)
         if v:
             return v
@@ -320,6 +395,8 @@ def run_grader(site, spec, samples, dict_order, rec_names, user_constants=None, 
         if not (isinstance(res, dict) and res.get('ok') is True):
             return viol('%s:identical-input-not-correct' % site,
                         'student input identical to the answer was not graded correct', True, res)
+        if wrong_depends == 'subclass':
+            return judge_sampler_log(site, spec, samples, slog)
         return None
 
     nontriv = bool(spec['forms']) or cls != 'ok'
@@ -433,6 +510,20 @@ def apply_variant(spec, n, variant):
             return None
         spec['consts'] = dict(KE)
         return spec, True
+    elif variant == 'subclass':
+        # all samplers are instances of author-side SUBCLASSES of DiscreteSet / DependentSampler that record their use
+        spec['consts'] = dict(KE)
+        return spec, 'subclass'
+    elif variant == 'literal':
+        # every second independent variable becomes a dependent one whose formula is a bare number: it has NO
+        # dependency at all (empty depends list), yet it is a dependent variable that others may hang on
+        if not spec['sets']:
+            return None
+        spec['consts'] = dict(KE)
+        for k, name in enumerate(sorted(spec['sets'])):
+            if k % 2 == 0:
+                del spec['sets'][name]
+                spec['forms'][name] = [M.C0[k] + 40, []]
     else:
         raise HarnessError('unknown variant %r' % variant)
     return spec, False
@@ -836,7 +927,8 @@ class NumberedFamily(C13Family):
 # ----------------------------------------------------------------------------- constants and shadowing through a grader
 
 CONST_KINDS = ['user-const', 'user-overrides-default', 'indep-var-shadows-default', 'dep-var-shadows-default',
-               'removed-default-is-undefined', 'removed-default-redeclared-as-variable']
+               'removed-default-is-undefined', 'removed-default-redeclared-as-variable',
+               'user-const-zero', 'user-overrides-default-with-zero', 'user-const-vector']
 
 
 def consts_setup(case):
@@ -864,6 +956,24 @@ def consts_setup(case):
         names = ['x', 'pi', 'd']
         sets = {'x': [2, 3]}
         forms = {'pi': [1, [[2, ['x']]]], 'd': [2, [[3, ['pi']], [-2, ['x']]]]}
+        kw['suppress'] = True
+    elif kind == 'user-const-zero':
+        # falsy but valid constants: the integer 0 and the float 0.0
+        names = ['x', 'p', 'd']
+        sets = {'x': [2, 3]}
+        forms = {'p': [1, [[2, ['x']], [3, ['z']]]], 'd': [2, [[3, ['p']], [-2, ['zf']], [2, ['z']]]]}
+        kw['user_constants'] = {'z': 0, 'zf': 0.0}
+    elif kind == 'user-const-vector':
+        # a vector-valued user constant u = [1,2]: p = x*u is a vector, d = p.u + 2*x a number
+        names = ['x', 'p', 'd']
+        sets = {'x': [2, 3]}
+        forms = {'p': [None, [[1, ['x', 'u']]]], 'd': [None, [[1, ['p', 'u']], [2, ['x']]]]}
+        kw['user_constants'] = {'u': [1, 2]}
+    elif kind == 'user-overrides-default-with-zero':
+        names = ['x', 'p', 'd']
+        sets = {'x': [2, 3]}
+        forms = {'p': [1, [[2, ['x']], [3, ['pi']]]], 'd': [2, [[3, ['p']], [-2, ['e']]]]}
+        kw['user_constants'] = {'pi': 0, 'e': 0.0}
         kw['suppress'] = True
     elif kind == 'removed-default-is-undefined':
         names = ['x', 'p', 'd']
@@ -1015,6 +1125,531 @@ class SiblingFamily(C13Family):
         return product_check(body, judge, True, 'graded')
 
 
+# ----------------------------------------------------------------------------- several numbered heads, other carriers
+
+HEADS = ['n', 'N', 'nn']                       # case-distinct heads and a head that is a prefix of another
+HEADSETS = {'n': [11, 13], 'N': [23], 'nn': [31]}
+IDXPATS = [(1, 1, 1), (1, 10, -1), (0, 0, 0), (101, -100, 12), (-345, 0, 1)]
+MULTI_CARRIERS = ['formula-mid', 'integral-mid', 'params2', 'matrix2', 'sum', 'sibling']
+
+
+def always_equal(comparer_params_eval, student_eval, utils):
+    return True
+
+
+def multi_setup(case):
+    car, h1, h2, h3, pat, dep = case
+    hs = (h1, h2, h3)
+    insts = ['%s_{%d}' % (HEADS[h], i) for h, i in zip(hs, IDXPATS[pat])]
+    form = [1, [[2, ['x']]]]
+    if dep:
+        form[1].append([3, [insts[dep - 1]]])
+    spec = {'vars': ['x', 'd'], 'sets': {'x': [2, 3]}, 'forms': {'d': form}, 'consts': {}}
+    extra_sets = {nm: list(HEADSETS[HEADS[h]]) for nm, h in zip(insts, hs)}
+    return MULTI_CARRIERS[car], insts, spec, extra_sets
+
+
+class NumberedMultiFamily(C13Family):
+    name = 'numbered_multi'
+    rule = ('three numbered heads at once: n {11,13}, N {23}, nn {31} (case-distinct; one a prefix of another); three '
+            'instances I1, I2, I3 with heads from every triple of heads and index patterns (1,1,1), (1,10,-1) '
+            '[thorough: also (0,0,0), (101,-100,12), (-345,0,1)]; d = 1+2*x [+3*I1 | I2 | I3]; the instances reach the '
+            'sampler through different CARRIERS: formula-mid = gen_var_and_func_samples(I3-expression, {}, [two comparer '
+            'parameters]) of a FormulaGrader; integral-mid = the same with the (answer dict, student dict) call shape of an '
+            'IntegralGrader (full key set incl. the constant infty); params2 / matrix2 = FormulaGrader / MatrixGrader '
+            'whose answer has TWO comparer_params (recA(x,d,I1), recB(I2)) and student input recS(I3); sum = SumGrader '
+            'with I1 in the limits, I2 in the author\'s summand, I3 in the student\'s summand; sibling = ordered '
+            'ListGrader whose first input I1+x reaches the second grading only as sibling_1 (I1 = sibling_1 - x must '
+            'be in the set of its head).  1 sample (all recorded calls belong to one sample and must agree); full RNG '
+            'product')
+
+    def cases(self, tier):
+        pats = range(len(IDXPATS)) if tier == 'thorough' else (0, 1)
+        for car in range(len(MULTI_CARRIERS)):
+            for pat in pats:
+                for dep in range(4):
+                    if MULTI_CARRIERS[car] == 'sibling' and dep > 1:
+                        continue        # the first input is graded without I2 / I3 in any expression: left open
+                    for h1 in range(3):
+                        for h2 in range(3):
+                            for h3 in range(3):
+                                yield (car, h1, h2, h3, pat, dep)
+
+    def describe(self, case):
+        carrier, insts, spec, extra_sets = multi_setup(tuple(case))
+        return {'carrier': carrier, 'numbered_vars': HEADS, 'sets of the heads': HEADSETS, 'I1,I2,I3': insts,
+                'd': M.formula_str(spec['forms']['d']), 'x': spec['sets']['x'], 'samples': 1}
+
+    def check_case(self, case):
+        from mitxgraders import FormulaGrader, MatrixGrader, SumGrader, IntegralGrader, ListGrader
+        carrier, insts, spec, extra_sets = multi_setup(case)
+        i1, i2, i3 = insts
+        site = 'multi/' + carrier
+        log = []
+        fa, fb, fs = Recorder(3, log, 'A'), Recorder(1, log, 'B'), Recorder(1, log, 'S')
+        funcs = {'recA': fa, 'recB': fb, 'recS': fs}
+
+        def common():
+            sf = sample_from_of(spec)
+            for h in HEADS:
+                sf[h] = discrete(HEADSETS[h])
+            return dict(variables=list(spec['vars']), sample_from=sf, samples=1, numbered_vars=list(HEADS),
+                        user_functions=dict(funcs))
+
+        # ---------------- M carriers: full dictionaries
+        if carrier in ('formula-mid', 'integral-mid'):
+            consts = dict(DEFAULT_CONSTS)
+
+            def body(ch):
+                try:
+                    if carrier == 'formula-mid':
+                        g = FormulaGrader(answers='0', **common())
+                        out = g.gen_var_and_func_samples(i3, {}, ['x+d+' + i1, '2*' + i2])
+                    else:
+                        g = IntegralGrader(answers={'lower': 'x', 'upper': 'd', 'integrand': i1 + '*t',
+                                                    'integration_variable': 't'},
+                                           input_positions={'integrand': 1, 'lower': 2}, **common())
+                        out = g.gen_var_and_func_samples(dict(g.config['answers']),
+                                                         {'integrand': i2 + '+t', 'lower': i3, 'upper': 'd',
+                                                          'integration_variable': 't'})
+                except Exception as e:      # noqa
+                    return ('err', e)
+                return ('ok', out)
+
+            full = dict(spec, consts=consts)
+
+            def judge(out):
+                if out[0] == 'err':
+                    return judge_error(site, 'ok', out[1])
+                pair = out[1]
+                if not (isinstance(pair, tuple) and len(pair) == 2):
+                    return viol('%s:bad-return' % site, 'expected (var_samples, func_samples)', None, repr(pair))
+                v = judge_dicts(site, full, 1, pair[0], extra_sets)
+                if v is None and carrier == 'integral-mid':
+                    d0 = pair[0][0]
+                    if 'infty' not in d0 or d0['infty'] != float('inf'):
+                        return viol('%s:missing-key' % site, 'default constant infty of the IntegralGrader is not in '
+                                    'the sample', 'inf', repr(d0.get('infty')))
+                return v
+
+            return product_check(body, judge, True, 'values')
+
+        # ---------------- G carriers: what the recording functions see
+        a_names = ['sibling_1', 'x', 'd'] if carrier == 'sibling' else ['x', 'd', i1]
+        two = {'comparer_params': ['recA(%s)' % ','.join(a_names), 'recB(%s)' % i2], 'comparer': always_equal}
+        stu = 'recS(%s)' % i3
+
+        def body(ch):
+            del log[:]
+            try:
+                if carrier in ('params2', 'matrix2'):
+                    g = (MatrixGrader if carrier == 'matrix2' else FormulaGrader)(answers=two, **common())
+                    res = g(None, stu)
+                elif carrier == 'sum':
+                    lower = 'recA(%s)' % ','.join(a_names)
+                    g = SumGrader(answers={'lower': lower, 'upper': lower + '+1', 'summand': 'recB(%s)' % i2,
+                                           'summation_variable': 't'},
+                                  input_positions={'summand': 1}, **common())
+                    res = g(None, stu)
+                else:
+                    sub = FormulaGrader(answers='0', **common())
+                    lg = ListGrader(answers=[i1 + '+x', two], subgraders=sub, ordered=True)
+                    res = lg(None, [i1 + '+x', stu])
+            except Exception as e:      # noqa
+                return ('err', e)
+            return ('ok', res, list(log))
+
+        names_of = {'A': a_names, 'B': [i2], 'S': [i3]}
+
+        def judge(out):
+            if out[0] == 'err':
+                return judge_error(site, 'ok', out[1])
+            calls = out[2]
+            tags = set(c[0] for c in calls)
+            if tags != set('ABS'):
+                raise HarnessError('recording functions called: %r' % (sorted(tags),))
+            merged = {}
+            for tag, args in calls:
+                for nm, val in zip(names_of[tag], args):
+                    if nm in merged and not M.close(merged[nm], val):
+                        return viol('%s:one-sample-two-values' % site,
+                                    '%s has two different values within the single sample of this grading' % nm,
+                                    merged[nm], val)
+                    merged[nm] = val
+            sp = spec
+            if carrier == 'sibling':
+                try:
+                    merged[i1] = merged['sibling_1'] - merged['x']
+                except TypeError:
+                    return viol('%s:dependent-inconsistent' % site, 'sibling_1 is not a number', 'number',
+                                merged['sibling_1'])
+                sp = dict(spec, vars=spec['vars'] + ['sibling_1'],
+                          forms=dict(spec['forms'], sibling_1=[None, [[1, [i1]], [1, ['x']]]]))
+            bad = M.judge_sample(sp, merged, extra_sets)
+            if bad:
+                kind, msg, exp, obs = bad
+                return viol('%s:%s' % (site, kind), 'values seen by the author functions: %s' % msg, exp,
+                            {'sample': merged, 'value': obs})
+            return None
+
+        return product_check(body, judge, True, 'graded')
+
+
+# ----------------------------------------------------------------------------- one grader, several different inputs
+
+HIST_HEADS = ['n', 'N']
+HIST_SETS = {'n': [11], 'N': [23]}
+
+
+def history_setup(case):
+    h1, h2, hj1, hj3, j3idx, dep = case
+    i1, i2 = '%s_{5}' % HIST_HEADS[h1], '%s_{6}' % HIST_HEADS[h2]
+    j1, j3 = '%s_{1}' % HIST_HEADS[hj1], '%s_{%d}' % (HIST_HEADS[hj3], j3idx)
+    form = [1, [[2, ['x']]]]
+    if dep:
+        form[1].append([3, [[i1, i2][dep - 1]]])
+    spec = {'vars': ['x', 'd'], 'sets': {'x': [2, 3]}, 'forms': {'d': form}, 'consts': {}}
+    return i1, i2, j1, j3, spec
+
+
+class NumberedHistoryFamily(C13Family):
+    name = 'numbered_history'
+    rule = ('ONE FormulaGrader (heads n {11}, N {23}; answer with two comparer_params recA(x,d,I1), recB(I2); d = 1+2*x '
+            '[+3*I1 | +3*I2]) is called three times in a row: student input recS(J1), then an input that raises '
+            '(undefined variable), then recS(J3) with ANOTHER instance (other index and/or other head): every call '
+            'must sample exactly the instances of ITS OWN expressions from the right head; heads of I1, I2, J1, J3 '
+            'and the index of J3 in {1, 2} enumerated; 1 sample; full RNG product')
+
+    def cases(self, tier):
+        for dep in range(3):
+            for h1 in range(2):
+                for h2 in range(2):
+                    for hj1 in range(2):
+                        for hj3 in range(2):
+                            for j3idx in (1, 2):
+                                yield (h1, h2, hj1, hj3, j3idx, dep)
+
+    def describe(self, case):
+        i1, i2, j1, j3, spec = history_setup(tuple(case))
+        return {'numbered_vars': HIST_HEADS, 'sets of the heads': HIST_SETS,
+                'answer': ['recA(x,d,%s)' % i1, 'recB(%s)' % i2], 'd': M.formula_str(spec['forms']['d']),
+                'student inputs in a row': ['recS(%s)' % j1, 'recS(undefined_q)', 'recS(%s)' % j3]}
+
+    def check_case(self, case):
+        from mitxgraders import FormulaGrader
+        i1, i2, j1, j3, spec = history_setup(case)
+        log = []
+        funcs = {'recA': Recorder(3, log, 'A'), 'recB': Recorder(1, log, 'B'), 'recS': Recorder(1, log, 'S')}
+        two = {'comparer_params': ['recA(x,d,%s)' % i1, 'recB(%s)' % i2], 'comparer': always_equal}
+
+        def body(ch):
+            del log[:]
+            done = []
+            try:
+                sf = sample_from_of(spec)
+                for h in HIST_HEADS:
+                    sf[h] = discrete(HIST_SETS[h])
+                g = FormulaGrader(answers=two, variables=list(spec['vars']), sample_from=sf, samples=1,
+                                  numbered_vars=list(HIST_HEADS), user_functions=dict(funcs))
+                for k, stu in enumerate(['recS(%s)' % j1, 'recS(undefined_q)', 'recS(%s)' % j3]):
+                    n0 = len(log)
+                    if k == 1:
+                        try:
+                            g(None, stu)
+                        except Exception:       # noqa  (the student's mistake; whatever is raised)
+                            pass
+                        continue
+                    g(None, stu)
+                    done.append((k, list(log[n0:])))
+            except Exception as e:      # noqa
+                return ('err', e, len(done))
+            return ('ok', done)
+
+        def judge(out):
+            if out[0] == 'err':
+                return judge_error('history' if out[2] == 0 else 'history/later-call', 'ok', out[1])
+            for k, calls in out[1]:
+                site = 'history' if k == 0 else 'history/later-call'
+                jn = j1 if k == 0 else j3
+                names_of = {'A': ['x', 'd', i1], 'B': [i2], 'S': [jn]}
+                if set(c[0] for c in calls) != set('ABS'):
+                    raise HarnessError('recording functions called: %r' % (calls,))
+                merged = {}
+                for tag, args in calls:
+                    for nm, val in zip(names_of[tag], args):
+                        if nm in merged and not M.close(merged[nm], val):
+                            return viol('%s:one-sample-two-values' % site,
+                                        '%s has two different values within the single sample of this grading' % nm,
+                                        merged[nm], val)
+                        merged[nm] = val
+                extra_sets = {nm: HIST_SETS[nm.split('_')[0]] for nm in (i1, i2, jn)}
+                bad = M.judge_sample(spec, merged, extra_sets)
+                if bad:
+                    kind, msg, exp, obs = bad
+                    return viol('%s:%s' % (site, kind), 'values seen by the author functions: %s' % msg, exp,
+                                {'sample': merged, 'value': obs})
+            return None
+
+        def label(out):
+            seen = [args[0] for k, calls in out[1] for tag, args in calls if tag == 'S']
+            return 'graded:student-instance-values=%s' % '/'.join(str(v) for v in sorted(set(seen)))
+
+        return product_check(body, judge, True, label)
+
+
+# ----------------------------------------------------------------------------- siblings in mixed lists
+
+MIX_PALETTES = {
+    'scalar': [('1+2*x', [1, [[2, ['x']]]]), ('x*x', [None, [[1, ['x', 'x']]]]), ('7', [7, []])],
+    'matrix': [('[1,2]*x', [None, [[1, ['x', 'v12']]]]), ('x*x', [None, [[1, ['x', 'x']]]]),
+               ('[3,4]', [None, [[1, ['v34']]]])],
+}
+MIX_MODES = ['shared', 'distinct', 'matrix']
+MIX_PSEUDO = {'v12': [1, 2], 'v34': [3, 4]}          # only for the reference: the literals of the matrix palette
+MIX_PAIRS_QUICK = [(0, 1), (1, 0), (2, 0), (0, 2), (2, 2)]
+
+
+def mixed_setup(case):
+    mode, strpos, rpos, a_in, b_in, dsib = case
+    mode = MIX_MODES[mode]
+    pal = MIX_PALETTES['matrix' if mode == 'matrix' else 'scalar']
+    slots = ['f0', 'f1', 'f2']
+    layout = list(slots)
+    if strpos >= 0:
+        layout.insert(strpos, 'str')
+    providers = [sl for sl in slots if sl != slots[rpos]]
+    sib = {sl: 'sibling_%d' % (layout.index(sl) + 1) for sl in providers}
+    sa, sb = sib[providers[0]], sib[providers[1]]
+    if mode == 'matrix':
+        dform = [1, [[2, ['x']]]]
+        if dsib:
+            dform[1].append([3, [[sa, sb][dsib - 1]] * 2])         # 3*(sibling . sibling): a number either way
+    else:
+        dform = [1, [[2, ['x']]]]
+        if dsib:
+            dform[1].append([3, [[sa, sb][dsib - 1]]])
+    inputs = {providers[0]: pal[a_in], providers[1]: pal[b_in]}
+    return mode, layout, slots[rpos], providers, sa, sb, dform, inputs
+
+
+class SiblingMixedFamily(C13Family):
+    name = 'sibling_mixed'
+    rule = ('ordered ListGrader with a LIST of subgraders: three formula slots and optionally a StringGrader inserted at '
+            'position 0..3 (sibling_k is numbered by the position in the whole list); the recording answer '
+            'rec(sibling_a, sibling_b, x, d) sits in the first, middle or last formula slot (so it refers to later '
+            'inputs as well as earlier ones); the two other inputs run over a palette (scalar: 1+2*x, x*x, 7; matrix: '
+            '[1,2]*x, x*x, [3,4]); d = 1+2*x [+3*sibling_a | +3*sibling_b] (matrix mode: 3*sibling*sibling); modes: '
+            'one FormulaGrader object in all three slots / three separately built FormulaGraders / one MatrixGrader '
+            'object (vector-valued siblings); 1 sample; full RNG product.  Quick: StringGrader absent / first / '
+            'between, 5 of the 9 input pairs')
+
+    def cases(self, tier):
+        strposs = (-1, 0, 1, 2, 3) if tier == 'thorough' else (-1, 0, 2)
+        pairs = [(a, b) for a in range(3) for b in range(3)] if tier == 'thorough' else MIX_PAIRS_QUICK
+        for mode in range(len(MIX_MODES)):
+            for strpos in strposs:
+                for rpos in range(3):
+                    for a_in, b_in in pairs:
+                        for dsib in range(3):
+                            yield (mode, strpos, rpos, a_in, b_in, dsib)
+
+    def describe(self, case):
+        mode, layout, rslot, providers, sa, sb, dform, inputs = mixed_setup(tuple(case))
+        return {'mode': mode, 'list': ['StringGrader' if sl == 'str' else
+                                       ('rec(%s,%s,x,d)' % (sa, sb) if sl == rslot else 'input ' + inputs[sl][0])
+                                       for sl in layout],
+                'd': M.formula_str(dform), 'x': [2, 3], 'samples': 1}
+
+    def check_case(self, case):
+        from mitxgraders import ListGrader, StringGrader, MatrixGrader
+        mode, layout, rslot, providers, sa, sb, dform, inputs = mixed_setup(case)
+        sub = {'vars': ['x', 'd'], 'sets': {'x': [2, 3]}, 'forms': {'d': dform}, 'consts': {}}
+        rec_names = [sa, sb, 'x', 'd']
+        log = []
+        rec = Recorder(4, log, 'rec')
+        last = 'rec(%s)' % ','.join(rec_names)
+        view = {'vars': rec_names, 'sets': {'x': [2, 3]}, 'consts': dict(MIX_PSEUDO),
+                'forms': {sa: inputs[providers[0]][1], sb: inputs[providers[1]][1], 'd': dform}}
+
+        def build():
+            if mode == 'matrix':
+                return make_grader(sub, 1, None, '0', {'rec': rec}, klass=MatrixGrader)
+            return make_grader(sub, 1, None, '0', {'rec': rec})
+
+        def body(ch):
+            del log[:]
+            try:
+                shared = build()
+                graders, answers, student = [], [], []
+                for sl in layout:
+                    if sl == 'str':
+                        graders.append(StringGrader())
+                        answers.append('cat')
+                        student.append('cat')
+                        continue
+                    graders.append(build() if mode == 'distinct' else shared)
+                    answers.append(last if sl == rslot else inputs[sl][0])      # (MatrixGrader compares shapes)
+                    student.append('5' if sl == rslot else inputs[sl][0])
+                lg = ListGrader(answers=answers, subgraders=graders, ordered=True)
+                res = lg(None, student)
+            except Exception as e:      # noqa
+                return ('err', e)
+            return ('ok', res, [c[1] for c in log])
+
+        def judge(out):
+            if out[0] == 'err':
+                return judge_error('sibling-mixed', 'ok', out[1])
+            if not out[2]:
+                raise HarnessError('recording function never called')
+            for args in out[2]:
+                d = dict(zip(rec_names, args))
+                d.update(MIX_PSEUDO)
+                bad = M.judge_sample(view, d)
+                if bad:
+                    kind, msg, exp, obs = bad
+                    return viol('sibling-mixed:%s' % kind, 'values seen by the author function: %s' % msg, exp,
+                                {'sample': d, 'value': obs})
+            return None
+
+        def label(out):
+            kinds = sorted(set('vector' if isinstance(a, list) else 'number' for args in out[2] for a in args[:2]))
+            return 'graded:siblings=' + '/'.join(kinds)
+
+        return product_check(body, judge, True, label)
+
+
+# ----------------------------------------------------------------------------- what a formula may contain
+
+FEATURE_SHAPES = [(1, 0), (2, 0), (0, 0), (1, 1), (1, 2)]          # (samples; 0 = the grader's default of 5, root mode)
+
+
+class FormulaFeatureFamily(C13Family):
+    name = 'formula_features'
+    timeout = 30.0           # up to 32 gradings with a 17-argument recording function per case
+    rule = ('one configuration of 12 variables whose dependent formulas use an author-defined function, a default '
+            'function, the % suffix, a bare number (no dependency at all), the zero constants 0 and 0.0, the default '
+            'constant i (complex values), a vector literal and a dot product, with a primed name x\' and the '
+            'case-distinct names x / X (mcv/refs/c13_features.py); declared in topological order, its reverse, every '
+            'rotation and one interleaving (sample_from insertion order reversed for odd order numbers); observed at '
+            'gen_symbols_samples (D: 1 and 2 samples; roots as DiscreteSets, or X as RealInterval [5,7]), at '
+            'gen_var_and_func_samples (M) and through a recording function (G) of a FormulaGrader with 1, 2 and the '
+            'DEFAULT number of samples (samples not passed: 5; X then one-valued) and, with 1 sample, roots given in '
+            'the raw forms the grader coerces (x as tuple (2,3), x\' as number 11, X left at the default sampling set '
+            '(docs: RealInterval [1,5]) or given as list [5,7]); full RNG product (continuous draws: the 5-entry menu of mcv.chooser)')
+
+    def cases(self, tier):
+        for oidx in range(len(F.ORDERS)):
+            for arm in ('D', 'M', 'G'):
+                for samples, rmode in FEATURE_SHAPES:
+                    if arm == 'D' and (samples == 0 or rmode == 1):
+                        continue
+                    yield (arm, oidx, samples, rmode)
+
+    def describe(self, case):
+        arm, oidx, samples, rmode = case
+        return {'observe': arm, 'variables': [F.TOPO[k] for k in F.ORDERS[oidx]],
+                'samples': samples or 'default (5)', 'roots': self.roots(samples, rmode)[1],
+                'dependent': {n: t[0] for n, t in F.DEPS.items()}, 'user_constants': dict(F.USER_CONSTS)}
+
+    @staticmethod
+    def roots(samples, rmode):
+        """(sample_from entries as given to the library, reference description of the roots)"""
+        xs, Xs = [2, 3], ([5, 7] if samples else [5])
+        if rmode == 0:
+            return ({'x': discrete(xs), 'X': discrete(Xs), "x'": discrete([11])},
+                    {'x': ['set', xs], 'X': ['set', Xs], "x'": ['set', [11]]})
+        if rmode == 1:
+            return ({'x': tuple(xs), "x'": 11},
+                    {'x': ['set', xs], 'X': ['interval', 1, 5], "x'": ['set', [11]]})
+        return ({'x': tuple(xs), 'X': [5, 7], "x'": 11},
+                {'x': ['set', xs], 'X': ['interval', 5, 7], "x'": ['set', [11]]})
+
+    def check_case(self, case):
+        from mitxgraders import FormulaGrader, RealInterval, DiscreteSet
+        from mitxgraders.sampling import gen_symbols_samples
+        from mitxgraders.helpers.calc import DEFAULT_FUNCTIONS, DEFAULT_SUFFIXES
+        arm, oidx, samples, rmode = case
+        order = [F.TOPO[k] for k in F.ORDERS[oidx]]
+        given, roots = self.roots(samples, rmode)
+        nsamples = samples or 5
+        names = sorted(F.TOPO)
+        if oidx % 2:
+            names = names[::-1]
+        site = {'D': 'direct', 'M': 'mid', 'G': 'grader'}[arm] + '/features'
+        rec_names = F.TOPO + ['z0', 'zf', 'k', 'e', 'pi']
+        log = []
+        rec = Recorder(len(rec_names), log, 'rec')
+        expr = 'rec(%s)' % ','.join(rec_names)
+
+        def sample_from():
+            sf = OrderedDict()
+            for n in names:
+                if n in F.DEPS:
+                    sf[n] = dependent_text(F.DEPS[n][0])
+                elif n in given:
+                    sf[n] = given[n]
+            return dict(sf)
+
+        def body(ch):
+            del log[:]
+            try:
+                sf = sample_from()
+                if arm == 'D':
+                    for n in list(sf):
+                        if isinstance(sf[n], list):
+                            sf[n] = RealInterval(sf[n])
+                        elif isinstance(sf[n], (tuple, int)):
+                            sf[n] = DiscreteSet(sf[n])
+                    funcs = dict(DEFAULT_FUNCTIONS, twice=F.twice)
+                    out = gen_symbols_samples(list(order), nsamples, sf, funcs, dict(DEFAULT_SUFFIXES), F.constants())
+                    return ('ok', out)
+                kw = dict(answers=expr, variables=list(order), sample_from=sf,
+                          user_functions={'twice': F.twice, 'rec': rec}, user_constants=dict(F.USER_CONSTS))
+                if samples:
+                    kw['samples'] = samples
+                g = FormulaGrader(**kw)
+                if arm == 'M':
+                    return ('ok', g.gen_var_and_func_samples(expr, {}, [expr])[0])
+                res = g(None, expr)
+                return ('ok', [dict(zip(rec_names, c[1])) for c in log], res)
+            except Exception as e:      # noqa
+                return ('err', e)
+
+        def judge(out):
+            if out[0] == 'err':
+                return judge_error(site, 'ok', out[1])
+            dicts = out[1]
+            if arm != 'G' and (not isinstance(dicts, list) or len(dicts) != nsamples):
+                return viol('%s:wrong-sample-count' % site, 'expected %d sample dictionaries' % nsamples, nsamples,
+                            len(dicts) if isinstance(dicts, list) else repr(dicts))
+            if arm == 'G':
+                if not dicts:
+                    raise HarnessError('recording function never called')
+                if not (isinstance(out[2], dict) and out[2].get('ok') is True):
+                    return viol('%s:identical-input-not-correct' % site,
+                                'student input identical to the answer was not graded correct', True, out[2])
+            for k, d in enumerate(dicts):
+                d = {n: to_py(v) for n, v in d.items()}
+                bad = F.judge_sample(d, roots, need_consts=(arm != 'G'))
+                if bad:
+                    kind, msg, exp, obs = bad
+                    return viol('%s:%s' % (site, kind), 'sample %d: %s' % (k + 1, msg), exp,
+                                {'sample': d, 'value': obs})
+            return None
+
+        return product_check(body, judge, True, 'values' if arm != 'G' else 'graded')
+
+
+_DEPT = {}
+
+
+def dependent_text(text):
+    from mitxgraders import DependentSampler
+    if text not in _DEPT:
+        _DEPT[text] = DependentSampler(formula=text)
+    return _DEPT[text]
+
+
 # ----------------------------------------------------------------------------- registry
 
 SOME_ORDERS4 = [0, 5, 10, 15, 20, 23]
@@ -1027,17 +1662,23 @@ def families(tier):
                     note=' (gen_symbols_samples only looks names up in sample_from: its insertion order is varied '
                          'in the <=3-node families and in the grader families)'),
         GraphFamily('direct_variants_le3', 'D', (2, 3), False,
-                    variants=('const', 'constroot', 'shadow', 'dangling-first', 'dangling-last', 'depends'),
+                    variants=('const', 'constroot', 'shadow', 'dangling-first', 'dangling-last', 'depends',
+                              'subclass', 'literal'),
                     dorders='same+reversed'),
         GraphFamily('direct_samples_1_3', 'D', (3,), False, samples=(1, 3), dorders='first'),
         GraphFamily('grader_digraph_le3', 'G', (1, 2, 3), True),
         GraphFamily('grader_variants_le3', 'G', (2, 3), False,
-                    variants=('const', 'constroot', 'dangling-first', 'depends'), dorders='same+reversed'),
+                    variants=('const', 'constroot', 'dangling-first', 'depends', 'subclass', 'literal'),
+                    dorders='same+reversed'),
         ShapeFamily(),
         VectorFamily(),
         NumberedFamily(),
         ConstFamily(),
         SiblingFamily(),
+        NumberedMultiFamily(),
+        NumberedHistoryFamily(),
+        SiblingMixedFamily(),
+        FormulaFeatureFamily(),
     ]
     if tier == 'thorough':
         fams += [
@@ -1047,7 +1688,8 @@ def families(tier):
             GraphFamily('direct_dag5_orders', 'D', (5,), False, vorders='fixed12', dorders='first', samples=(1,),
                         acyclic_only=True, note=' (the 29281 acyclic graphs only)'),
             GraphFamily('direct_variants4', 'D', (4,), False,
-                        variants=('const', 'constroot', 'shadow', 'dangling-first', 'dangling-last', 'depends'),
+                        variants=('const', 'constroot', 'shadow', 'dangling-first', 'dangling-last', 'depends',
+                                  'subclass', 'literal'),
                         vorders=SOME_ORDERS4, dorders='first'),
             GraphFamily('grader_dag4', 'G', (4,), False, dorders='first'),
             GraphFamily('grader_dag4_acyclic_revdict', 'G', (4,), False, dorders='reversed', acyclic_only=True,
